@@ -53,8 +53,8 @@ func main() {
 	c.Assume("first/last fields: where a bucket combines several contributed values the reference accepts any of them, except in the directed " +
 		"arrival-order scenarios (one series, one slot, one value per write call) where the rule of memdb's write() - the later call wins for last, the earlier for first - is required")
 	c.Assume("timestamps lie 1-5 hours in the past, aligned to whole hours of the process clock at case start; TZ=UTC for the children; " +
-		"the only clock driven mechanism on the path (memdb keys a metric's slot range by a 5ms clock stamp) is kept out of the random " +
-		"histories by pacing memory database creation and is probed by its own directed scenario")
+		"memory database creation is not paced: several memory databases of a shard may get the same stamp of lindb's 5ms clock (a directed " +
+		"scenario produces that on purpose and verifies the collision logically)")
 	c.Assume("race detector reports do not decide C11 (the unchanged tree races outside the anchored mechanisms); no race variant is built")
 
 	var jobs []job
